@@ -97,3 +97,31 @@ Theorem C05_solver_model_propagate_sound : forall U P A (st : sstate A) level st
   grows (s_db st) (ps_trail (s_ps st)) (ps_trail (s_ps st')) /\
   (forall id, r = Some id -> exists c, nth_error (s_db st) (N.to_nat id) = Some c /\ falsified (ps_trail (s_ps st')) (cl_lits c) = true).
 Proof. exact sinv_propagate_sound. Qed.
+
+(* ---- the level structure of the trail (Cdcl/SolverLevels.v) ---- *)
+From Resolvo Require Import Cdcl.SolverLevels.
+
+(* with the level structure (LInv: levels sorted, every entry justified by its clause or opening
+   its level, every registered assertion a clause of the asserted literal and the negated root)
+   and the root at the bottom of the trail, the hypothesis of C05_solver_model_propagate_sound
+   holds by itself; a call of propagate keeps the level structure, makes all its assignments on
+   the level it was given, and reports only falsified clauses *)
+Theorem C05_solver_model_propagate_keeps_levels : forall U P A (st : sstate A) level st' r,
+  SInv U P A st -> LInv A st -> Rooted (ps_trail (s_ps st)) -> (top_lv st <= level)%N ->
+  s_propagate st level = Some (st', r) ->
+  LInv A st' /\ Rooted (ps_trail (s_ps st')) /\ (top_lv st' <= level)%N /\
+  lgrows level (ps_trail (s_ps st)) (ps_trail (s_ps st')) /\
+  (forall id, r = Some id -> exists c, nth_error (s_db st') (N.to_nat id) = Some c /\
+                                        falsified (ps_trail (s_ps st')) (cl_lits c) = true).
+Proof. exact linv_propagate. Qed.
+
+(* learn_from_conflict keeps the level structure: the learnt clause enters the database, the
+   trail is cut back to the backjump level (never below the root's), and the literal the clause
+   asserts is assigned there, justified by the learnt clause -- whose other literals are all
+   still false *)
+Theorem C05_solver_model_learn_keeps_levels : forall U P A a_conflict (st : sstate A) conf st' lv,
+  SInv U P A st -> LInv A st -> Rooted (ps_trail (s_ps st)) -> (2 <= top_lv st)%N ->
+  (exists c, nth_error (s_db st) (N.to_nat conf) = Some c /\ falsified (ps_trail (s_ps st)) (cl_lits c) = true) ->
+  learn U a_conflict st conf = Some (st', lv) ->
+  LInv A st' /\ Rooted (ps_trail (s_ps st')) /\ top_lv st' = lv.
+Proof. exact linv_learn. Qed.
